@@ -9,6 +9,8 @@ from collections.abc import Iterable, Sequence
 from mailbox import Maildir, NoSuchMailboxError
 from typing import TypeAlias, TypeVar, Protocol
 
+from pymap.exceptions import NotSupportedError
+
 __all__ = ['MaildirLayout', 'DefaultLayout', 'FilesystemLayout']
 
 _Parts: TypeAlias = Sequence[str]
@@ -155,7 +157,12 @@ class _BaseLayout(MaildirLayout[_MaildirT], metaclass=ABCMeta):
     def _split(cls, name: str, delimiter: str) -> _Parts:
         if name == 'INBOX':
             return []
-        return name.split(delimiter)
+        parts = name.split(delimiter)
+        for part in parts:
+            if not part or part in ('.', '..') \
+                    or os.sep in part or '\0' in part:
+                raise NotSupportedError('Invalid mailbox name.')
+        return parts
 
     @classmethod
     def _join(cls, parts: _Parts, delimiter: str) -> str:
